@@ -516,13 +516,14 @@ macro_rules! boolred_ty { ($s:expr, $V:ident, $name:literal, $N:expr, $kind:iden
 // ------------------------------------------------------------------------------------------------
 // 5. order-dependent functions on concrete lanes
 // ------------------------------------------------------------------------------------------------
-const MASKS: [&str; 12] = ["cmpeq", "cmpne", "cmpge", "cmpgt", "cmple", "cmplt", "partial_cmpeq", "partial_cmpne", "partial_cmpge", "partial_cmpgt", "partial_cmple", "partial_cmplt"];
+const MASKS: [&str; 24] = ["cmpeq", "cmpne", "cmpge", "cmpgt", "cmple", "cmplt", "partial_cmpeq", "partial_cmpne", "partial_cmpge", "partial_cmpgt", "partial_cmple", "partial_cmplt",
+    "cmpeq_simd", "cmpne_simd", "cmpge_simd", "cmpgt_simd", "cmple_simd", "cmplt_simd", "partial_cmpeq_simd", "partial_cmpne_simd", "partial_cmpge_simd", "partial_cmpgt_simd", "partial_cmple_simd", "partial_cmplt_simd"];
 const SELS: [&str; 8] = ["min(V,V)", "max(V,V)", "partial_min(V,V)", "partial_max(V,V)", "min(V,T)", "max(V,T)", "partial_min(V,T)", "partial_max(V,T)"];
 fn bitsv(v: &[f64]) -> Vec<String> { v.iter().map(|x| format!("{:?}", x)).collect() }
 
 /// element-wise min/max family and the 12 masks on i32 lanes; lane i holds pair[(r + i*k) mod len]
 #[inline(never)]
-fn order_i32(s: &Section, ty: &str, n: usize, sel: &dyn Fn(&[i32], &[i32], i32) -> [Vec<i32>; 8], masks: &dyn Fn(&[i32], &[i32]) -> [Vec<bool>; 12]) {
+fn order_i32(s: &Section, ty: &str, n: usize, sel: &dyn Fn(&[i32], &[i32], i32) -> [Vec<i32>; 8], masks: &dyn Fn(&[i32], &[i32]) -> [Vec<bool>; 24]) {
     let alpha: Vec<i32> = if s.thorough() { vec![i32::MIN, -2, 0, 3, i32::MAX] } else { vec![-2, 0, 3] };
     let pairs: Vec<(i32, i32)> = alpha.iter().flat_map(|&x| alpha.iter().map(move |&y| (x, y))).collect();
     let mut count = 0u64;
@@ -544,7 +545,7 @@ fn order_i32(s: &Section, ty: &str, n: usize, sel: &dyn Fn(&[i32], &[i32], i32) 
         let m6: [Vec<bool>; 6] = [(0..n).map(|i| a[i] == b[i]).collect(), (0..n).map(|i| a[i] != b[i]).collect(), (0..n).map(|i| a[i] >= b[i]).collect(),
             (0..n).map(|i| a[i] > b[i]).collect(), (0..n).map(|i| a[i] <= b[i]).collect(), (0..n).map(|i| a[i] < b[i]).collect()];
         match catch(|| masks(&a, &b)) {
-            Ok(g) => for f in 0..12 { s.eval(rels > 1); count += 1; if g[f] != m6[f % 6] { s.violation_w(&format!("{} {}<i32>", ty, MASKS[f]), "wrong-lane", json!({"input": inp(), "got": g[f], "want": m6[f % 6]}), r as u64); } },
+            Ok(g) => for f in 0..24 { s.eval(rels > 1); count += 1; if g[f] != m6[f % 6] { s.violation_w(&format!("{} {}<i32>", ty, MASKS[f]), "wrong-lane", json!({"input": inp(), "got": g[f], "want": m6[f % 6]}), r as u64); } },
             Err(e) => s.violation(&format!("{} cmp masks<i32>", ty), "panic", json!({"input": inp(), "error": jd(&e)})),
         }
     } }
@@ -552,7 +553,7 @@ fn order_i32(s: &Section, ty: &str, n: usize, sel: &dyn Fn(&[i32], &[i32], i32) 
 }
 /// partial_min / partial_max and the 6 partial masks on f64 lanes incl. NaN, signed zeros, infinity
 #[inline(never)]
-fn order_f64(s: &Section, ty: &str, n: usize, sel: &dyn Fn(&[f64], &[f64]) -> [Vec<f64>; 2], masks: &dyn Fn(&[f64], &[f64]) -> [Vec<bool>; 6]) {
+fn order_f64(s: &Section, ty: &str, n: usize, sel: &dyn Fn(&[f64], &[f64]) -> [Vec<f64>; 2], masks: &dyn Fn(&[f64], &[f64]) -> [Vec<bool>; 12]) {
     let alpha = [-1.0f64, -0.0, 0.0, 1.0, f64::INFINITY, f64::NAN];
     let pairs: Vec<(f64, f64)> = alpha.iter().flat_map(|&x| alpha.iter().map(move |&y| (x, y))).collect();
     let mut count = 0u64;
@@ -578,7 +579,7 @@ fn order_f64(s: &Section, ty: &str, n: usize, sel: &dyn Fn(&[f64], &[f64]) -> [V
         let m6: [Vec<bool>; 6] = [(0..n).map(|i| a[i] == b[i]).collect(), (0..n).map(|i| a[i] != b[i]).collect(), (0..n).map(|i| a[i] >= b[i]).collect(),
             (0..n).map(|i| a[i] > b[i]).collect(), (0..n).map(|i| a[i] <= b[i]).collect(), (0..n).map(|i| a[i] < b[i]).collect()];
         match catch(|| masks(&a, &b)) {
-            Ok(g) => for f in 0..6 { s.eval(true); count += 1; if g[f] != m6[f] { s.violation_w(&format!("{} {}<f64>", ty, MASKS[6 + f]), "wrong-lane", json!({"input": inp(), "got": g[f], "want": m6[f]}), r as u64); } },
+            Ok(g) => for f in 0..12 { s.eval(true); count += 1; if g[f] != m6[f % 6] { s.violation_w(&format!("{} {}<f64>", ty, MASKS[if f < 6 { 6 + f } else { 12 + f }]), "wrong-lane", json!({"input": inp(), "got": g[f], "want": m6[f % 6]}), r as u64); } },
             Err(e) => s.violation(&format!("{} partial cmp masks<f64>", ty), "panic", json!({"input": inp(), "error": jd(&e)})),
         }
     } }
@@ -630,10 +631,13 @@ macro_rules! order_ty { ($s:expr, $V:ident, $name:literal, $N:expr, $kind:ident,
         order_i32(s, $name, $N,
             &|a, b, t| { let (a, b) = (VI::mk(a), VI::mk(b)); [VI::min(a, b).de(), VI::max(a, b).de(), VI::partial_min(a, b).de(), VI::partial_max(a, b).de(), VI::min(a, t).de(), VI::max(a, t).de(), VI::partial_min(a, t).de(), VI::partial_max(a, t).de()] },
             &|a, b| { let (a, b) = (VI::mk(a), VI::mk(b)); [a.cmpeq(&b).de(), a.cmpne(&b).de(), a.cmpge(&b).de(), a.cmpgt(&b).de(), a.cmple(&b).de(), a.cmplt(&b).de(),
-                a.partial_cmpeq(&b).de(), a.partial_cmpne(&b).de(), a.partial_cmpge(&b).de(), a.partial_cmpgt(&b).de(), a.partial_cmple(&b).de(), a.partial_cmplt(&b).de()] });
+                a.partial_cmpeq(&b).de(), a.partial_cmpne(&b).de(), a.partial_cmpge(&b).de(), a.partial_cmpgt(&b).de(), a.partial_cmple(&b).de(), a.partial_cmplt(&b).de(),
+                a.cmpeq_simd(b).de(), a.cmpne_simd(b).de(), a.cmpge_simd(b).de(), a.cmpgt_simd(b).de(), a.cmple_simd(b).de(), a.cmplt_simd(b).de(),
+                a.partial_cmpeq_simd(b).de(), a.partial_cmpne_simd(b).de(), a.partial_cmpge_simd(b).de(), a.partial_cmpgt_simd(b).de(), a.partial_cmple_simd(b).de(), a.partial_cmplt_simd(b).de()] });
         order_f64(s, $name, $N,
             &|a, b| { let (a, b) = (VF::mk(a), VF::mk(b)); [VF::partial_min(a, b).de(), VF::partial_max(a, b).de()] },
-            &|a, b| { let (a, b) = (VF::mk(a), VF::mk(b)); [a.partial_cmpeq(&b).de(), a.partial_cmpne(&b).de(), a.partial_cmpge(&b).de(), a.partial_cmpgt(&b).de(), a.partial_cmple(&b).de(), a.partial_cmplt(&b).de()] });
+            &|a, b| { let (a, b) = (VF::mk(a), VF::mk(b)); [a.partial_cmpeq(&b).de(), a.partial_cmpne(&b).de(), a.partial_cmpge(&b).de(), a.partial_cmpgt(&b).de(), a.partial_cmple(&b).de(), a.partial_cmplt(&b).de(),
+                a.partial_cmpeq_simd(b).de(), a.partial_cmpne_simd(b).de(), a.partial_cmpge_simd(b).de(), a.partial_cmpgt_simd(b).de(), a.partial_cmple_simd(b).de(), a.partial_cmplt_simd(b).de()] });
         order_reduce(s, $name, $N,
             &|a| { let v = VI::mk(a); [v.reduce_min(), v.reduce_max(), v.reduce_partial_min(), v.reduce_partial_max()] },
             &|a| { let v = VF::mk(a); [v.reduce_partial_min(), v.reduce_partial_max()] });
@@ -722,7 +726,7 @@ fn main() {
         "13 types; bool: all 2^N vectors for N <= 16, every vector within <= 2 deviations of all-true / all-false for N = 32, 64; i8..u64, Wrapping<i8..u64>, f32, f64 (zero, -0.0 = false; everything else incl. NaN = true): all-zero, all-nonzero, one non-zero lane at every position, one zero lane at every position, for every (zero, non-zero) value pair of the alphabet, plus mixed non-zero values; both reductions compared with all()/any(); one evaluation per (vector, function); non-trivial: vector has both true and false lanes",
         true, false, |s| { s.require_classes(&ALL_TYPES); s.require_classes(&["Wrapping u64", "f32", "i8"]); for_all_vecs!(boolred_ty, s); });
     rep.section("min/max/partial_min/partial_max, 12 comparison masks, reduce_min/max (concrete ordered lanes)",
-        "13 types; i32: lane i holds the pair P[(r + i*k) mod |P|], P = all ordered pairs over {-2,0,3} (thorough: {MIN,-2,0,3,MAX}), every rotation r and strides k in {1,2,5}, so every lane meets every relation <,=,> with varying neighbours: min max partial_min partial_max with (V,V) and (V,scalar) operands and the 12 masks cmp*/partial_cmp* vs the scalar relation per lane; f64: pairs over {-1,-0,+0,1,inf,NaN}: partial_min/partial_max (asserted: result is bitwise one of the two operands; equals the textbook min/max when neither is NaN, ties open) and the 6 partial masks (IEEE relations); reduce_min/max/partial_min/partial_max on every rotation of 0..N and of its reverse, all-equal, and +1/-1 at every single position (f64 copies incl. signed zeros; with a NaN lane only 'is one of the elements' is asserted); one evaluation per (vector pair, function); non-trivial: lanes do not all carry the same relation / min != max / no NaN",
+        "13 types; i32: lane i holds the pair P[(r + i*k) mod |P|], P = all ordered pairs over {-2,0,3} (thorough: {MIN,-2,0,3,MAX}), every rotation r and strides k in {1,2,5}, so every lane meets every relation <,=,> with varying neighbours: min max partial_min partial_max with (V,V) and (V,scalar) operands and the 24 masks cmp*/partial_cmp* and their by-value *_simd twins vs the scalar relation per lane; f64: pairs over {-1,-0,+0,1,inf,NaN}: partial_min/partial_max (asserted: result is bitwise one of the two operands; equals the textbook min/max when neither is NaN, ties open) and the 6 partial masks and their *_simd twins (IEEE relations); reduce_min/max/partial_min/partial_max on every rotation of 0..N and of its reverse, all-equal, and +1/-1 at every single position (f64 copies incl. signed zeros; with a NaN lane only 'is one of the elements' is asserted); one evaluation per (vector pair, function); non-trivial: lanes do not all carry the same relation / min != max / no NaN",
         true, false, |s| { s.require_classes(&ALL_TYPES); for_all_vecs!(order_ty, s); });
     rep.section("sqrt rsqrt recip ceil floor round on f64 lanes, is_any_negative / are_all_positive on i32",
         "13 types; three lane-distinct f64 generators (perfect squares, fractional positives, signed values with .0/.125 offsets incl. negative) in every rotation: each lane must carry the scalar function of that lane (bit-identical; rsqrt = 1/sqrt within the derived 256-eps bound); sign predicates on all-positive, all-negative, all-zero and one deviating lane (negative / zero / positive) at every position; non-trivial: all float cases; predicates: lanes of mixed sign",
